@@ -139,6 +139,11 @@ theorem C19_noPds (cfg : Config) : ∀ e ∈ noPds cfg, e.2.proc ≠ .pds := by
   · simp
   · rename_i h; simpa using h
 
+theorem C19_noPds_get (cfg : Config) : ∀ bit f, (noPds cfg).get bit = some f → f.proc ≠ .pds := by
+  intro bit f hget
+  obtain ⟨e, he, rfl⟩ := config_get_mem hget
+  exact C19_noPds cfg e he
+
 /-- C19 (the step behind byte-for-byte reversibility of the IPM tools): for a configuration
     without PAN masking, decoding a record the library wrote and encoding the result again gives
     the SAME BYTES — the decoder's typed values (numbers, date-times), masked nothing, and derived
@@ -157,51 +162,117 @@ theorem C19_reencode_identity {env : Env} (henv : EnvOK env) (cfg : Config) (hex
   rw [← h1]
   apply encodeCore_congr
   · rw [h3, hmti]
-  · intro bit hb
-    cases hm : Dict.get m (.de bit) with
-    | some v =>
-      by_cases hp : present v = true
-      · obtain ⟨f, exp, sub, hcfg, hw, hget⟩ := h4 bit hb v hm hp
-        have := wf_exp_eq hw (hnopan bit f hcfg)
-        subst this
-        rw [hget]
-      · have hp' : present v = false := by simpa using hp
-        simp only [hp', Bool.false_eq_true, if_false]
-        cases hd : Dict.get d (.de bit) with
-        | none => rfl
-        | some x =>
-          exfalso
-          rcases h5 _ (mem_of_get hd) with h6 | ⟨bit', v', hk, hv', hp''⟩ | h6
-          · simp at h6
-          · simp only at hk
-            injection hk with e
-            subst e
-            rw [hm] at hv'
-            injection hv' with e2
-            subst e2
-            rw [hp'] at hp''
-            simp at hp''
-          · simp [Key.isDerived] at h6
-    | none =>
-      simp only
-      cases hd : Dict.get d (.de bit) with
-      | none => rfl
-      | some x =>
-        exfalso
-        rcases h5 _ (mem_of_get hd) with h6 | ⟨bit', v', hk, hv', _⟩ | h6
-        · simp at h6
-        · simp only at hk
-          injection hk with e
-          subst e
-          rw [hm] at hv'
-          simp at hv'
-        · simp [Key.isDerived] at h6
+  · apply sameEnc_of_elements env cfg m d _ h5
+    intro bit hb v hm hp
+    obtain ⟨f, exp, sub, hcfg, hw, hget⟩ := h4 bit hb v hm hp
+    obtain ⟨hre, hpe⟩ := wf_reencode hw (hnopan bit f hcfg)
+    exact ⟨f, exp, hcfg, hget, hpe, hre⟩
+
+/-- C19 (message level, there and back): a message that is well formed under encodings A and B
+    (same character classes and date parser; no PAN masking; no PDS keys) goes
+      bytes_A  --decode A-->  d_A  --encode B-->  bytes_B  --decode B-->  d_B  --encode A-->  bytes_A
+    and arrives at the SAME BYTES it started from: converting a record to the other encoding and
+    back is the identity on the record, typed values and derived entries notwithstanding -/
+theorem C19_there_and_back {envA envB : Env} (hA : EnvOK envA) (hB : EnvOK envB)
+    (hcl : envA.classes = envB.classes) (hpd : envA.parseDate = envB.parseDate)
+    (cfg : Config) (m : Dict)
+    (hnopan : ∀ bit f, cfg.get bit = some f → f.proc ≠ .pan ∧ f.proc ≠ .panPrefix)
+    (ds : List Nat) (hds : ∀ d ∈ ds, d < 10) (hl : ds.length = 4)
+    (hmti : Dict.get m .mti = some (.str (digitText ds)))
+    (hnopds : pdsEntriesOf m = [])
+    (hwfA : ElemsWF envA cfg m allBits) (hwfB : ElemsWF envB cfg m allBits) :
+    ∃ a dA b dB, encode envA cfg false m = .ok a ∧ decode envA cfg false a = .ok dA ∧
+      encodeCore envB cfg false dA = .ok b ∧ decode envB cfg false b = .ok dB ∧
+      encodeCore envA cfg false dB = .ok a ∧ encode envB cfg false m = .ok b := by
+  obtain ⟨a, dA, a1, a2, a3, a4, a5⟩ := C01.C01_roundtrip hA cfg false m ds hds hl hmti hnopds hwfA
+  obtain ⟨b, dB, b1, b2, b3, b4, b5⟩ := C01.C01_roundtrip hB cfg false m ds hds hl hmti hnopds hwfB
+  refine ⟨a, dA, b, dB, a1, a2, ?_, b2, ?_, b1⟩
+  · -- d_A encodes under B like m does
+    rw [C01.encode_no_pds _ _ _ _ hnopds] at b1
+    rw [← b1]
+    apply encodeCore_congr
+    · rw [a3, hmti]
+    · apply sameEnc_of_elements envB cfg m dA _ a5
+      intro bit hb v hm hp
+      obtain ⟨f, expA, subA, hcfg, hwA, hgetA⟩ := a4 bit hb v hm hp
+      obtain ⟨f', expB, subB, hcfg', hwB, _⟩ := b4 bit hb v hm hp
+      rw [hcfg] at hcfg'
+      injection hcfg' with e
+      subst e
+      obtain ⟨hre, hpe⟩ := wf_reencode hwB (hnopan bit f hcfg)
+      have hexp := wf_exp_det hcl hpd hwA hwB
+      subst hexp
+      exact ⟨f, expA, hcfg, hgetA, hpe, hre⟩
+  · -- d_B encodes under A like m does
+    rw [C01.encode_no_pds _ _ _ _ hnopds] at a1
+    rw [← a1]
+    apply encodeCore_congr
+    · rw [b3, hmti]
+    · apply sameEnc_of_elements envA cfg m dB _ b5
+      intro bit hb v hm hp
+      obtain ⟨f, expA, subA, hcfg, hwA, _⟩ := a4 bit hb v hm hp
+      obtain ⟨f', expB, subB, hcfg', hwB, hgetB⟩ := b4 bit hb v hm hp
+      rw [hcfg] at hcfg'
+      injection hcfg' with e
+      subst e
+      obtain ⟨hre, hpe⟩ := wf_reencode hwA (hnopan bit f hcfg)
+      have hexp := wf_exp_det hcl hpd hwA hwB
+      subst hexp
+      exact ⟨f, expA, hcfg, hgetB, hpe, hre⟩
+
+/-- C19 (the tools' own calls): when the configuration leaves the PDS carriers alone — the read
+    configuration of `mci_ipm_encode` and `mideu convert` (`C19_noPds`) — the decoded dictionaries
+    hold no PDS key, so the tool's `encode` (with PDS packing) is the plain encoder and the journey
+    A → B → A through `loads` / `dumps` returns the record byte for byte -/
+theorem C19_there_and_back_tools {envA envB : Env} (hA : EnvOK envA) (hB : EnvOK envB)
+    (hcl : envA.classes = envB.classes) (hpd : envA.parseDate = envB.parseDate)
+    (cfg : Config) (m : Dict)
+    (hnopan : ∀ bit f, cfg.get bit = some f → f.proc ≠ .pan ∧ f.proc ≠ .panPrefix)
+    (hnp : ∀ bit f, cfg.get bit = some f → f.proc ≠ .pds)
+    (ds : List Nat) (hds : ∀ d ∈ ds, d < 10) (hl : ds.length = 4)
+    (hmti : Dict.get m .mti = some (.str (digitText ds)))
+    (hnopds : pdsEntriesOf m = [])
+    (hwfA : ElemsWF envA cfg m allBits) (hwfB : ElemsWF envB cfg m allBits) :
+    ∃ a dA b dB, encode envA cfg false m = .ok a ∧ decode envA cfg false a = .ok dA ∧
+      encode envB cfg false dA = .ok b ∧ decode envB cfg false b = .ok dB ∧
+      encode envA cfg false dB = .ok a := by
+  obtain ⟨a, dA, b, dB, h1, h2, h3, h4, h5, h6⟩ :=
+    C19_there_and_back hA hB hcl hpd cfg m hnopan ds hds hl hmti hnopds hwfA hwfB
+  have h1' := h1
+  rw [C01.encode_no_pds _ _ _ _ hnopds] at h1'
+  have h6' := h6
+  rw [C01.encode_no_pds _ _ _ _ hnopds] at h6'
+  have hdA : pdsEntriesOf dA = [] :=
+    C01.C01_decoded_no_pds hA cfg false m hnp ds hds hl hmti hwfA a dA h1' h2
+  have hdB : pdsEntriesOf dB = [] :=
+    C01.C01_decoded_no_pds hB cfg false m hnp ds hds hl hmti hwfB b dB h6' h4
+  refine ⟨a, dA, b, dB, h1, h2, ?_, h4, ?_⟩
+  · rw [C01.encode_no_pds _ _ _ _ hdA]; exact h3
+  · rw [C01.encode_no_pds _ _ _ _ hdB]; exact h5
 
 /-- the packaged configuration has no PAN masking (re-checked against /repo on every run) -/
 theorem packaged_no_pan : ∀ bit f, Gen.bitConfig.get bit = some f → f.proc ≠ .pan ∧ f.proc ≠ .panPrefix := by
   intro bit f hget
   obtain ⟨e, he, rfl⟩ := config_get_mem hget
   have hall : Gen.bitConfig.all (fun e => e.2.proc != .pan && e.2.proc != .panPrefix) = true := by decide
+  have := List.all_eq_true.mp hall e he
+  simpa using this
+
+/-- non-vacuity of `C19_there_and_back_tools`: the packaged configuration as the tools read it
+    (`noPds`), encodings latin_1 and cp500, the sample message of C01 -/
+example (pd : Text → Option DateTime) :
+    ∃ a dA b dB, encode (C01.envOf Gen.latin_1 pd) (noPds Gen.bitConfig) false C01.sampleMsg = .ok a ∧
+      decode (C01.envOf Gen.latin_1 pd) (noPds Gen.bitConfig) false a = .ok dA ∧
+      encode (C01.envOf Gen.cp500 pd) (noPds Gen.bitConfig) false dA = .ok b ∧
+      decode (C01.envOf Gen.cp500 pd) (noPds Gen.bitConfig) false b = .ok dB ∧
+      encode (C01.envOf Gen.latin_1 pd) (noPds Gen.bitConfig) false dB = .ok a := by
+  apply C19_there_and_back_tools (C01.envOK_latin1 pd) (C01.envOK_cp500 pd) (by simp only [C01.envOf]) (by simp only [C01.envOf]) (noPds Gen.bitConfig) C01.sampleMsg
+    _ (C19_noPds_get Gen.bitConfig) [1,1,4,4] (by decide) rfl rfl rfl
+    (C01.sample_wf pd _ (Or.inl rfl) _ (by decide +kernel) (by decide +kernel))
+    (C01.sample_wf pd _ (Or.inr (Or.inl rfl)) _ (by decide +kernel) (by decide +kernel))
+  intro bit f hget
+  obtain ⟨e, he, rfl⟩ := config_get_mem hget
+  have hall : (noPds Gen.bitConfig).all (fun e => e.2.proc != .pan && e.2.proc != .panPrefix) = true := by decide
   have := List.all_eq_true.mp hall e he
   simpa using this
 
